@@ -47,10 +47,10 @@ Proof. exact DStoreRefine.h4_needed. Qed.
 Print Assumptions c08_refuted_value_is_root_record.
 
 (* ---------------------------------------------------------------------------------------------- *)
-(* REGENERATED FROM THE SOURCE ON EVERY RUN (tools/gen -> Generated.g_code; Decisions.v): the decisions the model
+(* REGENERATED FROM THE SOURCE ON EVERY RUN (tools/gen -> Generated.g_code; DecBase.v, Dec*.v): the decisions the model
    takes at these points are the evaluations of the conditions the Go source has there, for all values of their
    variables. *)
-From GK Require Import GExpr Generated Decisions.
+From GK Require Import GExpr Generated DecBase DecRoot DecRevert.
 From Coq Require Import String.
 
 (* the recorded offset of a root record and the length it implies (Codec.root_at) *)
@@ -60,26 +60,26 @@ Theorem c08_root_offset_check_is_source :
       let rho := upd (upd (upd (upd (upd env0 "offset" offset) "atomic.LoadInt64(&s.size)" size) "rootsLen" roots_len)
                           "length" len) "uint32((atomic.LoadInt64(&s.size)-offset))" len32 in
       gtrue rho c = Some (Z.geb offset 0 && Z.ltb offset (size - roots_len) && Z.eqb len len32).
-Proof. exact Decisions.root_offset_decision. Qed.
+Proof. exact DecRoot.root_offset_decision. Qed.
 Print Assumptions c08_root_offset_check_is_source.
 
 (* FlushRevert steps below the current root only when the store is longer than an empty root record (Disk.revert_bytes) *)
 Theorem c08_revert_step_is_source :
   exists c, decisions "Store.FlushRevert" "rootsLen" = [c] /\
     forall size : Z, gtrue (upd (upd env0 "atomic.LoadInt64(&s.size)" size) "rootsLen" roots_len) c = Some (Z.ltb roots_len size).
-Proof. exact Decisions.revert_step_decision. Qed.
+Proof. exact DecRevert.revert_step_decision. Qed.
 Print Assumptions c08_revert_step_is_source.
 
 (* the backward scan: gives up at size <= rootsLen, tests MagicEnd at offsets 12 and 18 of the trailer, else moves down by one byte (Disk.scan) *)
 Theorem c08_scan_stop_is_source :
   exists c, hd_error (conds 400 scan_loop) = Some c /\
     forall size : Z, gtrue (upd (upd env0 "atomic.LoadInt64(&s.size)" size) "rootsLen" roots_len) c = Some (Z.leb size roots_len).
-Proof. exact Decisions.scan_stop_decision. Qed.
+Proof. exact DecRoot.scan_stop_decision. Qed.
 Print Assumptions c08_scan_stop_is_source.
 
 Theorem c08_scan_step_is_source :
   last scan_loop (SOther "") = SExpr (GCall "atomic.AddInt64" [GUn "&" (GVar "s.size"); GInt (-1)]).
-Proof. exact Decisions.scan_step_is_one. Qed.
+Proof. exact DecRoot.scan_step_is_one. Qed.
 Print Assumptions c08_scan_step_is_source.
 
 Theorem c08_scan_magic_offsets_is_source :
@@ -88,7 +88,7 @@ Theorem c08_scan_magic_offsets_is_source :
                   (GCall "bytes.Equal" [GVar "MagicEnd"; GCall "[:]" [GVar "rootsEnd"; GBin "+" (GInt 12) (GCall "len" [GVar "MagicEnd"]); GNil]]) /\
     geval (upd env0 "len(MagicEnd)" (Z.of_nat (List.length g_magic_end))) (GBin "+" (GInt 12) (GCall "len" [GVar "MagicEnd"])) = Some 18%Z /\
     roots_end_len = 24%Z.
-Proof. exact Decisions.scan_magic_offsets. Qed.
+Proof. exact DecRoot.scan_magic_offsets. Qed.
 Print Assumptions c08_scan_magic_offsets_is_source.
 
 Theorem c08_revert_order_is_source :
@@ -96,5 +96,5 @@ Theorem c08_revert_order_is_source :
   before "s.readRootsScan" "s.file.Truncate" l = true /\
   count_occ string_dec l "s.file.Truncate" = 1%nat /\
   before "atomic.AddInt64" "s.readRootsScan" l = true.
-Proof. exact Decisions.revert_order. Qed.
+Proof. exact DecRevert.revert_order. Qed.
 Print Assumptions c08_revert_order_is_source.
